@@ -794,9 +794,41 @@ def evaluate(ctx, cases, use_model=True):
         check_case(ctx, D, mt, e, label, depth, mr, exp)
 
 
+def xml_enum_check(ctx):
+    """Enumerations and types read from the XML text itself (not through the library's parser): every
+    enumerator must be accepted and a value outside the enumeration refused by the real field object."""
+    import os
+    import xml.etree.ElementTree as ET
+    from vlib import core
+
+    for D in dicts().values():
+        if not D.rel or D.xml is not None:
+            continue
+        root = ET.parse(os.path.join(core.REPO, D.rel)).getroot()
+        for el in root.find("fields"):
+            tag, ftype = el.attrib["number"], el.attrib["type"]
+            enum = [v.attrib["enum"] for v in el if v.tag == "value"]
+            f = D.schema._tag2field.get(tag)
+            if f is None or f.ftype != ftype or f.name != el.attrib["name"]:
+                ctx.fail({"dictionary": D.rel, "tag": tag}, "field of the XML dictionary missing or different in the parsed schema")
+                continue
+            ctx.count("xml-fields")
+            if not enum:
+                continue
+            ctx.count("xml-enumerated-fields")
+            for e in enum:
+                if e and D.verdict(tag, e) != 0:
+                    ctx.fail({"dictionary": D.rel, "tag": tag, "value": e}, "enumerator of the XML dictionary refused")
+            for bad in ("~~", enum[0] + "~", "5" if "5" not in enum else "~5", "9" if "9" not in enum else "~9"):
+                if bad not in enum and D.verdict(tag, bad) == 0:
+                    ctx.fail({"dictionary": D.rel, "tag": tag, "value": bad, "enumeration": enum[:12]},
+                             "value outside the XML enumeration accepted")
+
+
 def run(ctx):
     t0 = time.time()
     rng = ctx.rng
+    xml_enum_check(ctx)
     cases = corpus() + gen_cases(ctx, rng, ctx.scale(2, 6), ctx.scale(1, 3), n_synth=ctx.scale(60, 400))
     ctx.extra["gen_s"] = round(time.time() - t0, 1)
     evaluate(ctx, cases)
